@@ -30,6 +30,7 @@ package listener
 
 // ---- C16: a new local connection tries the direct forward address first; the upstreams are used only when
 // there is no usable forward address or dialling it failed
+//@ ghost G_snap_dial_failed() bool
 //@ ghost G_snap_direct() bool
 //@ ghost G_closes(x interface{}) int
 //@ ghost G_isclosed(x interface{}) bool
@@ -56,6 +57,12 @@ package listener
 //@   callsite net.Dial#1 (arg0 string, arg1 string, forward *addr.ProtoAddress) require arg0 == forward.Scheme && arg1 == forward.Host     :dials_exactly_the_forward_address
 //@   callsite PipeData#1 (arg0 io.ReadWriteCloser) require spec_sameref(arg0, conn)                                                          :pipes_the_local_connection_to_it
 //@   ensures old(l.Forward) == nil ==> !result                                                                  :no_forward_address_means_not_handled
+// C16: "not handled" (which sends the connection to the upstreams) is reported only when there is no complete
+// forward address or dialling it failed; a direct connection that was served, however it ended, is handled
+//@   callsite net.Dial#1 (c net.Conn, e error) assume G_snap_dial_failed() == (e != nil) "ghost snapshot: the outcome of dialling the forward address"
+//@   callsite return#3 () require !G_snap_dial_failed()                                                         :a_served_direct_connection_is_reported_handled
+//@   callsite return#4 () require G_snap_dial_failed()                                                          :not_handled_only_when_the_dial_failed
+//@   ensures !result && old(l.Forward) != nil && old(l.Forward.Host) != "" && old(l.Forward.Scheme) != "" ==> G_snap_dial_failed()      :upstreams_are_for_a_missing_or_unreachable_forward_address
 //@   property C14, C17
 //@   ensures result && !old(reportsClosedL(conn)) ==> G_closes(conn) == old(G_closes(conn)) + 1                   :handled_directly_means_closed
 //@   ensures !result ==> G_closes(conn) == old(G_closes(conn)) && G_isclosed(conn) == old(G_isclosed(conn))       :not_handled_means_untouched
